@@ -432,6 +432,24 @@ func c06Exec(c *Ctx, cs c06Case) string {
 		c.Note("map-order exploration capped at 4000 executions for some values")
 		c.Res.Exhaustive = false
 	}
+	// the type's own MarshalJSON, called directly, must obey the same contract
+	if m, ok := value.(json.Marshaler); ok {
+		if direct, derr := m.MarshalJSON(); derr == nil {
+			if !json.Valid(direct) {
+				viol("invalid-json", "", "", tail(string(direct), 400), "MarshalJSON called directly returned invalid JSON and a nil error")
+				outcome = "invalid-json"
+			} else if firstErr == nil {
+				var cb bytes.Buffer
+				json.Compact(&cb, direct)
+				var cf bytes.Buffer
+				json.Compact(&cf, first)
+				if !jsonEqual(mustParse(cb.String()), mustParse(cf.String())) {
+					viol("marshaljson-differs-from-json-marshal", "", cf.String(), cb.String(), "")
+					outcome = "direct-differs"
+				}
+			}
+		}
+	}
 	if firstErr != nil {
 		if outcome == "ok" {
 			return "encode-error"
